@@ -198,7 +198,7 @@ def run(P, R, tier):
     def structural(fn, *a, **k):
         try:
             fn(*a, **k)
-        except AnalysisError as e_:
+        except (AnalysisError, TypeError, KeyError, IndexError, AttributeError, ValueError) as e_:
             if not queries_decided:
                 raise
             R.notes.append(f'structural query rule not applicable to the present form ({e_}); the query methods are decided by evaluation')
@@ -736,7 +736,8 @@ def leaf_page_small_scope(P, R, HR):
     for s in walk_own(f.node):
         if isinstance(s, ast.For) and isinstance(s.target, ast.Name) and isinstance(s.iter, ast.Call) and norm(s.iter.func) in ('range', 'prange') and len(s.iter.args) == 1 \
                 and any(isinstance(x, ast.Assign) and isinstance(x.targets[0], ast.Subscript) and 'bounds_tree' in norm(x.targets[0].value) for x in ast.walk(s)):
-            page_loop = s
+            if page_loop is None or not any(x is s for x in ast.walk(page_loop)):
+                page_loop = s            # the outermost loop that stores tree rows (a per-dimension loop inside it belongs to its body)
     if page_loop is None:
         return False
     tree_name = next(norm(x.targets[0].value) for x in ast.walk(page_loop) if isinstance(x, ast.Assign) and isinstance(x.targets[0], ast.Subscript) and 'bounds_tree' in norm(x.targets[0].value))
@@ -755,7 +756,7 @@ def leaf_page_small_scope(P, R, HR):
     for n, rows in cases:
         total += 1
         k = len(rows)
-        env = {'page': 0, 'page_size': k, 'n': n, 'leaf_start': 0, 'sorted_bounds': [list(r) for r in rows], tree_name: [[nan] * (2 * n)], page_loop.target.id: 0}
+        env = {'page': 0, 'page_size': k, 'n': n, 'leaf_start': 0, 'input_size': k, 'num_pages': 1, 'sorted_bounds': [list(r) for r in rows], tree_name: [[nan] * (2 * n)], page_loop.target.id: 0}
         ev = veceval.VecEval(P, f, env, k)
         try:
             ev.block(page_loop.body)
@@ -824,7 +825,8 @@ def query_small_scope(P, R, NR, tier):
     fi, fc = mi[1], mc[1]
     vals = (0, 1, 2)
     boxes1 = [[lo, hi] for lo in vals for hi in vals if lo <= hi] + [[nan, nan]]
-    queries1 = [(lo, hi) for lo in vals for hi in vals if lo <= hi]
+    inf = float('inf')
+    queries1 = [(lo, hi) for lo in vals for hi in vals if lo <= hi] + [(-inf, 1), (1, inf), (-inf, inf)]       # half-open and unbounded queries are legal boxes
     thorough = tier == 'thorough'
     maxn = 3 if thorough else 2
     few = [[0, 0], [1, 2], [0, 2], [nan, nan]]
@@ -836,7 +838,7 @@ def query_small_scope(P, R, NR, tier):
                     continue
                 cases.append((1, [list(r) for r in rows], ps, queries1))
     # larger trees (3..5 rows on 2..5 pages: two and three levels) with fewer kinds of rows
-    qsub = queries1 if thorough else [(0, 0), (1, 2), (0, 2)]
+    qsub = queries1 if thorough else [(0, 0), (1, 2), (0, 2), (-inf, 1)]
     for N, kinds in (((4, few), (5, few[1:])) if thorough else ((3, few), (5, [few[1], few[3]]))):
         for rows in _it.product(kinds, repeat=N):
             for ps in ((1, 2) if thorough or N == 3 else (2,)):
@@ -1177,7 +1179,8 @@ def leaf_coverage(P, R, HR):
     for s in walk_own(f.node):
         if isinstance(s, ast.For) and isinstance(s.target, ast.Name) and isinstance(s.iter, ast.Call) and norm(s.iter.func) in ('range', 'prange') and len(s.iter.args) == 1 \
                 and any(isinstance(x, ast.Assign) and isinstance(x.targets[0], ast.Subscript) and 'bounds_tree' in norm(x.targets[0].value) for x in ast.walk(s)):
-            page_loop = s
+            if page_loop is None or not any(x is s for x in ast.walk(page_loop)):
+                page_loop = s
     if page_loop is None or 'tree_depth' not in defs:
         R.abstain('C03.e', f, None, 'page loop / tree_depth of the builder not in the recognised form')
         return
